@@ -9,17 +9,20 @@ import (
 	"encoding/binary"
 	"encoding/json"
 	"fmt"
+	"math/big"
 	"math/rand"
 	"os"
 	"sort"
 	"strings"
 	"time"
 
+	"github.com/idena-network/idena-go/blockchain/fee"
 	"github.com/idena-network/idena-go/blockchain/types"
 	"github.com/idena-network/idena-go/common"
 	"github.com/idena-network/idena-go/config"
 	"github.com/idena-network/idena-go/core/state"
 	"github.com/idena-network/idena-go/crypto"
+	"github.com/shopspring/decimal"
 
 	"verifharness/internal/chainfx"
 	"verifharness/internal/hx"
@@ -189,15 +192,22 @@ func c03fRun(c *hx.Ctx, cs c03fcase) error {
 		cer, proposer, proposerShard, proposerValidated := accountingInputs(st)
 		// the pending-switch lists are read by calculateFlags after the block's transactions were applied to the check state
 		sw := st
+		var usedGas uint64
 		if !blk.IsEmpty() && len(blk.Body.Transactions) > 0 {
 			if cs1, err := B.App.ForCheck(B.Chain.Head.Height()); err == nil {
 				func() {
 					defer func() { recover() }()
-					B.Chain.FxProcessTxs(cs1, blk.Header, blk.Body.Transactions)
+					_, _, _, g, _ := B.Chain.FxProcessTxs(cs1, blk.Header, blk.Body.Transactions)
+					usedGas = g
 				}()
 				sw = cs1.State
 			}
 		}
+		prevFee := "0"
+		if f := st.FeePerGas(); f != nil {
+			prevFee = f.String()
+		}
+		netSize := B.App.ValidatorsCache.NetworkSize()
 		onlineBefore := B.App.ValidatorsCache.OnlineSize()
 		longNs := int64(cfg.Validation.GetLongSessionDuration(B.App.ValidatorsCache.NetworkSize()))
 		prevUpgrade := B.Chain.Head.ProposedHeader != nil && B.Chain.Head.ProposedHeader.Upgrade > 0
@@ -225,6 +235,24 @@ func c03fRun(c *hx.Ctx, cs c03fcase) error {
 		}
 		flags := uint32(blk.Header.Flags()) &^ uint32(types.OfflinePropose|types.OfflineCommit)
 		c.Line(line, fmt.Sprintf("flags=%d period=%d cnt=%d snap=%d empty=%s", flags, st.ValidationPeriod(), st.BlocksCntWithoutCeremonialTxs(), st.LastSnapshot(), emptyStr()))
+		if !blk.IsEmpty() {
+			// the fee rate the block leaves behind (calculateNextBlockFeePerGas; an empty block does not touch it)
+			kd := decimal.NewFromFloat32(cfg.Consensus.FeeSensitivityCoef)
+			kScale := new(big.Int).Exp(big.NewInt(10), big.NewInt(int64(-kd.Exponent())), nil)
+			after := "0"
+			if f := st.FeePerGas(); f != nil {
+				after = f.String()
+			}
+			c.Line(fmt.Sprintf("fee %s %d %d %s %s %d", prevFee, usedGas, types.MaxBlockSize(cfg.Consensus.EnableUpgrade11), kd.Coefficient(), kScale, netSize), "fee "+after)
+			switch {
+			case after == prevFee:
+				c.Hit("fee:unchanged")
+			case usedGas > 0:
+				c.Hit("fee:moved-by-a-block-with-gas")
+			default:
+				c.Hit("fee:moved")
+			}
+		}
 		c.Rep.Evaluations++
 		c.Hit(fmt.Sprintf("flags:%d", flags))
 		c.Hit(fmt.Sprintf("period:%d->%d", periodBefore, st.ValidationPeriod()))
@@ -263,6 +291,15 @@ func init() {
 			return c03fRun(c, wrap.Replay.Case)
 		}
 		c.Rep.Rule = "two real replicas over multi-epoch histories (half of them sharded, a third with clock jumps of minutes between blocks, every sixth block empty, switch ranges 5/6/7, snapshot range 17); per block: the inputs of calculateFlags/applyGlobalParams read from the validator's state before the block, the header's flags (without the offline flags) and period / after-long counters / snapshot height after the real AddBlock; distinct = (history, flags, period)"
+		// the floor of the fee rate for every network size that matters, directly on the exported function
+		c.Line("new 1 1 1 1 1 1 0", "ok")
+		for n := 0; n <= 3000; n++ {
+			c.Line(fmt.Sprintf("minfee %d", n), "fee "+fee.GetFeePerGasForNetwork(n).String())
+		}
+		for k := 0; k < c.Scale(2000, 100000); k++ {
+			n := c.Rng.Intn(1 << uint(1+c.Rng.Intn(40)))
+			c.Line(fmt.Sprintf("minfee %d", n), "fee "+fee.GetFeePerGasForNetwork(n).String())
+		}
 		nh := c.Scale(6, 90)
 		for i := 0; i < nh; i++ {
 			cs := c03fcase{Seed: c.Seed*1000 + 500 + int64(i), Blocks: 150, Jump: i%3 == 1}
